@@ -344,6 +344,28 @@ for _sfx in ("", "_async"):
             _evaluate_wiring(_sfx, _lp, _ok)
 
 
+# ---- the callee contract assumed by the ForNode contract (context.parentloop) on the real method
+
+@contract("liquid.context:RenderContext.parentloop", prop="C13", name="parentloop[innermost enclosing loop, undefined outside any loop]")
+def parentloop(c):
+    env = mk_env(c, undefined=VClass("liquid.undefined", "Undefined"))
+    inner, outer = c.obj("liquid.builtin.tags.for_tag:ForLoop", "inner"), c.obj("liquid.builtin.tags.for_tag:ForLoop", "outer")
+
+    stacks = ([], [outer], [outer, inner])
+    ctxs = [mk_ctx(c, env, loops=c.st.alloc(HList(items=list(stack)))) for stack in stacks]
+
+    def entry(eng, cc, func):
+        outs = []
+        for stack, ctx in zip(stacks, ctxs):
+            for s, o in eng.run(func, cc.st.fork(), [], {}, self_val=ctx):
+                ok = (o.val == stack[-1]) if (stack and not isinstance(o, Raised)) else (not isinstance(o, Raised) and isinstance(o.val, VRef) and s.deref(o.val).cls[1] == "Undefined")
+                outs.append((s, Ret(VBool(z3.BoolVal(bool(ok))))))
+        return outs
+    c.entry = entry
+    c.ensures("the-innermost-open-loop-or-undefined", lambda r: r.value.t)
+    c.replay("code", code=REPLAY_FORLOOP)
+
+
 bounded("C13", "bounded/C13.py")
 not_covered("C13", "cols:0 / non-numeric cols (no documented reference behaviour; C02 only requires a Liquid error)", "TablerowNode.render_to_output (HTML row/cell structure) is covered by the bounded template-level check; its TableRow helper is proved",
             "_to_iter over a hash (items view of an arbitrary Mapping) is covered by the bounded check")
